@@ -128,7 +128,7 @@ theorem bigEndian_roundtrip (b : List UInt8) (hb : b.length = 8) (z : Nat) (hz :
   rw [e, hm]
 
 /-- **C08_gen** `bigEndian.PutElement (bigEndian.Element b) = b` whenever `b` is accepted -/
-theorem bigEndian_roundtrip' (b t : List UInt8) (hb : b.length = 8) (ht : t.length = 8) (h : Conv.beToNat b < P.q) :
+theorem bigEndian_roundtrip_inv (b t : List UInt8) (hb : b.length = 8) (ht : t.length = 8) (h : Conv.beToNat b < P.q) :
     Gen.Bytes.goldilocks.bigEndian_PutElement t (Gen.Bytes.goldilocks.bigEndian_Element b).1 = b := by
   obtain ⟨m, g, hm, e⟩ := bigEndian_Element_accept b hb h
   rw [e]
@@ -209,7 +209,7 @@ theorem littleEndian_roundtrip (b : List UInt8) (hb : b.length = 8) (z : Nat) (h
   rw [e, hm]
 
 /-- **C08_gen** `littleEndian.PutElement (littleEndian.Element b) = b` whenever `b` is accepted -/
-theorem littleEndian_roundtrip' (b t : List UInt8) (hb : b.length = 8) (ht : t.length = 8) (h : Conv.leToNat b < P.q) :
+theorem littleEndian_roundtrip_inv (b t : List UInt8) (hb : b.length = 8) (ht : t.length = 8) (h : Conv.leToNat b < P.q) :
     Gen.Bytes.goldilocks.littleEndian_PutElement t (Gen.Bytes.goldilocks.littleEndian_Element b).1 = b := by
   obtain ⟨m, g, hm, e⟩ := littleEndian_Element_accept b hb h
   rw [e]
